@@ -44,16 +44,88 @@ def count_haplotype_copies(genotype: A[i1, 2], h: int) -> int:
             unfold(NCOPIES(genotype, h, genotype.shape[1], i + 1))
 
 
-@contract("mchap.jitutils.get_haplotype_dosage", machine_ints=True, props=["C01", "C09"])
+@spec
+def NEQ(G: A[int, 2], h: int, lo: int, hi: int, n: int) -> int:
+    """number of haplotypes i < n equal to haplotype h on [lo, hi)  (h itself included when n > h)"""
+    decreases(n)
+    if n <= 0:
+        return 0
+    return NEQ(G, h, lo, hi, n - 1) + ite(ROWEQ(G, n - 1, h, lo, hi), 1, 0)
+
+
+@lemma(shared=True)
+def lemma_neq_range(G: A[int, 2], h: int, lo: int, hi: int, n: int):
+    requires(n >= 0)
+    ensures(0 <= NEQ(G, h, lo, hi, n), NEQ(G, h, lo, hi, n) <= n)
+    decreases(n)
+    unfold(NEQ(G, h, lo, hi, n))
+    if n > 0:
+        lemma_neq_range(G, h, lo, hi, n - 1)
+
+
+@lemma(shared=True)
+def lemma_neq_cong(G: A[int, 2], a: int, b: int, lo: int, hi: int, n: int):
+    """equal haplotypes have the same number of equals (symmetry and transitivity of ROWEQ)"""
+    requires(ROWEQ(G, a, b, lo, hi))
+    ensures(NEQ(G, a, lo, hi, n) == NEQ(G, b, lo, hi, n))
+    decreases(n)
+    unfold(NEQ(G, a, lo, hi, n), NEQ(G, b, lo, hi, n))
+    if n > 0:
+        lemma_neq_cong(G, a, b, lo, hi, n - 1)
+
+
+@lemma(shared=True)
+def lemma_neq_mono(G: A[int, 2], h: int, lo: int, hi: int, m: int, n: int):
+    requires(0 <= m, m <= n)
+    ensures(NEQ(G, h, lo, hi, m) <= NEQ(G, h, lo, hi, n))
+    decreases(n - m)
+    if m < n:
+        unfold(NEQ(G, h, lo, hi, n))
+        lemma_neq_mono(G, h, lo, hi, m, n - 1)
+
+
+@spec_inline
+def DOSE(G: A[int, 2], h: int, lo: int, hi: int, P: int) -> int:
+    """dosage of haplotype h: its number of copies if h is the first copy, else 0"""
+    return ite(NEQ(G, h, lo, hi, h) == 0, NEQ(G, h, lo, hi, P), 0)
+
+
+@contract("mchap.jitutils.get_haplotype_dosage", machine_ints=True, props=["C01", "C09", "C05"])
 def get_haplotype_dosage(dosage: A[i1, 1], genotype: A[i1, 2], interval: Opt[A[i8, 1]]):
     requires(len(dosage) == len(genotype), len(genotype) <= 127)
     requires(implies(interval is not None, len(interval) == 2 and 0 <= interval[0] and interval[1] <= genotype.shape[1]))
     modifies(dosage)
     ensures(forall(0, len(dosage), lambda a: 0 <= dosage[a] and dosage[a] <= len(genotype)))
+    # each haplotype's first copy carries the number of copies, later copies carry 0
+    ensures(forall(0, len(dosage), lambda a: dosage[a] == DOSE(genotype, a, LO, HI, len(genotype))))
+    with defs():
+        LO = ite(interval is None, 0, interval[0])
+        HI = ite(interval is None, genotype.shape[1], interval[1])
+    with entry():
+        with forall_intro(q, 0, len(genotype), NEQ(genotype, q, LO, HI, 0) == 0):
+            unfold(NEQ(genotype, q, LO, HI, 0))
     with loop(0):
-        invariant(0 <= h, h <= ploidy, ploidy == len(genotype))
-        invariant(forall(0, ploidy, lambda a: 0 <= dosage[a] and dosage[a] <= ite(a < h, ploidy - a, 1)))
+        invariant(0 <= h, h <= ploidy, ploidy == len(genotype), len(dosage) == ploidy)
+        invariant(forall(0, h, lambda q: dosage[q] == DOSE(genotype, q, LO, HI, ploidy)))
+        invariant(forall(h, ploidy, lambda q: dosage[q] == ite(NEQ(genotype, q, LO, HI, h) > 0, 0, 1)))
+        with head():
+            with forall_intro(q, 0, ploidy, NEQ(genotype, q, LO, HI, h + 1) == NEQ(genotype, q, LO, HI, h) + ite(ROWEQ(genotype, h, q, LO, HI), 1, 0) and NEQ(genotype, q, LO, HI, h) >= 0):
+                unfold(NEQ(genotype, q, LO, HI, h + 1))
+                lemma_neq_range(genotype, q, LO, HI, h)
+            with forall_intro(q, 0, ploidy, implies(ROWEQ(genotype, h, q, LO, HI), NEQ(genotype, q, LO, HI, h) == NEQ(genotype, h, LO, HI, h))):
+                if ROWEQ(genotype, h, q, LO, HI):
+                    lemma_neq_cong(genotype, h, q, LO, HI, h)
+    with exit_():
+        with forall_intro(q, 0, len(genotype), 0 <= NEQ(genotype, q, LO, HI, len(genotype)) and NEQ(genotype, q, LO, HI, len(genotype)) <= len(genotype)):
+            lemma_neq_range(genotype, q, LO, HI, len(genotype))
     with loop(1):
-        invariant(h + 1 <= p, p <= ploidy)
-        invariant(forall(0, ploidy, lambda a: 0 <= dosage[a] and dosage[a] <= ite(a < h, ploidy - a, ite(a == h, p - h, 1))))
-        invariant(dosage[h] >= 1)
+        invariant(h + 1 <= p, p <= ploidy, len(dosage) == ploidy, NEQ(genotype, h, LO, HI, h) == 0)
+        invariant(dosage[h] == NEQ(genotype, h, LO, HI, p), dosage[h] >= 1)
+        invariant(forall(0, h, lambda q: dosage[q] == DOSE(genotype, q, LO, HI, ploidy)))
+        invariant(forall(h + 1, p, lambda q: dosage[q] == ite(NEQ(genotype, q, LO, HI, h + 1) > 0, 0, 1)))
+        invariant(forall(p, ploidy, lambda q: dosage[q] == ite(NEQ(genotype, q, LO, HI, h) > 0, 0, 1)))
+        with head():
+            unfold(NEQ(genotype, h, LO, HI, p + 1))
+            lemma_neq_range(genotype, h, LO, HI, p)
+            if ROWEQ(genotype, p, h, LO, HI):
+                lemma_neq_cong(genotype, p, h, LO, HI, h)
